@@ -2,6 +2,7 @@ package main
 
 import (
 	"bufio"
+	"bytes"
 	"fmt"
 	"go/token"
 	"io"
@@ -74,7 +75,14 @@ func (l *patchLoader) LoadFileList(patchList string) (err error) {
 	}
 	defer multierr.AppendInvoke(&err, multierr.Close(f))
 
-	scanner := bufio.NewScanner(f)
+	// Read the whole list before acting on it: bufio.Scanner hands out a
+	// truncated last line as if it were complete when a read fails.
+	src, err := io.ReadAll(f)
+	if err != nil {
+		return fmt.Errorf("read: %w", err)
+	}
+
+	scanner := bufio.NewScanner(bytes.NewReader(src))
 	for scanner.Scan() {
 		path := scanner.Text()
 		if len(path) == 0 {
